@@ -320,15 +320,17 @@ def r2(ctx):
         r = norm(s.ret)
         wd = f.enum_discr(COLOR, 'White')
         bd = f.enum_discr(COLOR, 'Black')
-        want = {wd: call('square::Square::' + wdir, ('param', 1)), bd: call('square::Square::' + bdir, ('param', 1))}
-        ok = r[0] == 'ite' and r[1] == ('discr', ('param', 2))
-        if ok:
-            cases = {v: x for v, x in r[2] if x != ('never',)}
-            ok = set(cases) == set(want) and all(match(want[v], cases[v]) is not None for v in want)
-        if ok:
+        from ..treeq import TreeEq, strip_calls, C, show_env
+        te = TreeEq(f, canon=lambda e: strip_calls(norm(e)))
+        want = ('ite', ('discr', ('param', 2)), ((wd, C('square::Square::' + wdir, ('param', 1))), (bd, C('square::Square::' + bdir, ('param', 1)))))
+        eq, why = te.equal(want, r)
+        if eq is True:
             ctx.ok(R, '%s: White -> %s, Black -> %s' % (key, wdir, bdir), where(s.body))
+        elif eq is False:
+            ctx.violation(R, key, '%s does not dispatch White -> %s / Black -> %s: when %s it yields %s' % (
+                key, wdir, bdir, show_env(why[0], sh), sh(why[2], 120)), where(s.body))
         else:
-            ctx.violation(R, key, '%s does not dispatch White -> %s / Black -> %s: %s' % (key, wdir, bdir, sh(r, 200)), where(s.body))
+            ctx.inconclusive(R, '%s: %s' % (key, why))
 
 
 def r3(ctx):
